@@ -6,6 +6,7 @@ Mirrors (line by line, quirks included):
 
 * `writer/pdf_writer/mod.rs`
   * `escape_pdf_string_bytes`                         → `escapePdfString`
+  * `escape_pdf_name_bytes` (commit 16fac722)         → `escapeName` (`nameRegular`)
   * `PdfWriter::write_object_value`                   → `ser`      (direct objects)
   * `PdfWriter::write_object_value_to_buffer`         → `serBuf`   (objects inside object streams;
     the Rust function is a second copy of the same `match`, arm by arm byte-identical, so the
@@ -71,6 +72,23 @@ def hexBytesUpper : List Nat → List Nat
   | [] => []
   | b :: r => hexDigitUpper (b / 16 % 16) :: hexDigitUpper (b % 16) :: hexBytesUpper r
 
+/-! ## `escape_pdf_name_bytes` -/
+
+/-- `regular` in `escape_pdf_name_bytes`: `(b'!'..=b'~').contains(&byte)` and not one of
+    `( ) < > [ ] { } / % #` -/
+def nameRegular (b : Nat) : Bool :=
+  (33 ≤ b && b ≤ 126) &&
+    !(b == 40 || b == 41 || b == 60 || b == 62 || b == 91 || b == 93 || b == 123 || b == 125 ||
+      b == 47 || b == 37 || b == 35)
+
+/-- `escape_pdf_name_bytes`: regular bytes verbatim, every other byte as `#XX`
+    (`format!("#{byte:02X}")`) -/
+def escapeName : List Nat → List Nat
+  | [] => []
+  | b :: r =>
+    if nameRegular b then b :: escapeName r
+    else 35 :: hexDigitUpper (b / 16 % 16) :: hexDigitUpper (b % 16) :: escapeName r
+
 /-! ## dictionary entry order: `entries.sort_by_key(|(k, _)| k.as_str())` (byte-wise `str` order) -/
 
 def ltBytes : List Nat → List Nat → Bool
@@ -118,7 +136,7 @@ def serRaw : Obj → List Nat
   | .real t => trimReal t
   | .str s => 40 :: (escapePdfString s ++ [41])
   | .hexstr bs => 60 :: (hexBytesUpper bs ++ [62])
-  | .name n => 47 :: n
+  | .name n => 47 :: escapeName n
   | .arr xs => 91 :: (serElems true xs ++ [93])
   | .dict kvs => 60 :: 60 :: (serEntries kvs ++ [10, 62, 62])
   | .ref n g => showNat n ++ 32 :: (showNat g ++ [32, 82])
@@ -126,10 +144,10 @@ def serRaw : Obj → List Nat
 def serElems : Bool → List Obj → List Nat
   | _, [] => []
   | first, x :: xs => (if first then [] else [32]) ++ serRaw x ++ serElems false xs
-/-- `\n/key value` per entry -/
+/-- `\n/key value` per entry, the key through `escape_pdf_name_bytes` -/
 def serEntries : List (List Nat × Obj) → List Nat
   | [] => []
-  | (k, v) :: rest => 10 :: 47 :: (k ++ 32 :: (serRaw v ++ serEntries rest))
+  | (k, v) :: rest => 10 :: 47 :: (escapeName k ++ 32 :: (serRaw v ++ serEntries rest))
 end
 
 /-- `PdfWriter::write_object_value` -/
@@ -137,6 +155,35 @@ def ser (o : Obj) : List Nat := serRaw (sortDicts o)
 
 /-- `PdfWriter::write_object_value_to_buffer` (same arms, same bytes) -/
 def serBuf (o : Obj) : List Nat := ser o
+
+/-! ## the serializer before commit 16fac722 (names and keys written raw)
+
+Kept as the *regression*: the counter-witnesses of C09-F1 (and the injection witnesses of C30) are
+statements about these definitions. -/
+
+mutual
+/-- `write_object_value` as it was before names were escaped: `/` + the raw bytes -/
+def serRawUnescaped : Obj → List Nat
+  | .null => kwNull
+  | .bool b => if b then kwTrue else kwFalse
+  | .int i => showInt i
+  | .real t => trimReal t
+  | .str s => 40 :: (escapePdfString s ++ [41])
+  | .hexstr bs => 60 :: (hexBytesUpper bs ++ [62])
+  | .name n => 47 :: n
+  | .arr xs => 91 :: (serElemsUnescaped true xs ++ [93])
+  | .dict kvs => 60 :: 60 :: (serEntriesUnescaped kvs ++ [10, 62, 62])
+  | .ref n g => showNat n ++ 32 :: (showNat g ++ [32, 82])
+def serElemsUnescaped : Bool → List Obj → List Nat
+  | _, [] => []
+  | first, x :: xs => (if first then [] else [32]) ++ serRawUnescaped x ++ serElemsUnescaped false xs
+def serEntriesUnescaped : List (List Nat × Obj) → List Nat
+  | [] => []
+  | (k, v) :: rest => 10 :: 47 :: (k ++ 32 :: (serRawUnescaped v ++ serEntriesUnescaped rest))
+end
+
+/-- `PdfWriter::write_object_value` before commit 16fac722 -/
+def serUnescaped (o : Obj) : List Nat := serRawUnescaped (sortDicts o)
 
 /-! ## incremental writer (`writer/incremental_update.rs`) -/
 
